@@ -215,9 +215,8 @@ inline constexpr void Conversion<Unit::HeatCapacity, Unit::HeatCapacity::InchPou
 }
 
 template <typename NumericType>
-inline const std::
-    map<Unit::HeatCapacity, std::function<void(NumericType* values, const std::size_t size)>>
-        MapOfConversionsFromStandard<Unit::HeatCapacity, NumericType>{
+inline const ConversionTable<Unit::HeatCapacity, NumericType>
+    MapOfConversionsFromStandard<Unit::HeatCapacity, NumericType>{
           {Unit::HeatCapacity::JoulePerKelvin,
            Conversions<Unit::HeatCapacity, Unit::HeatCapacity::JoulePerKelvin>::
                FromStandard<NumericType>},
@@ -233,9 +232,8 @@ inline const std::
 };
 
 template <typename NumericType>
-inline const std::
-    map<Unit::HeatCapacity, std::function<void(NumericType* const values, const std::size_t size)>>
-        MapOfConversionsToStandard<Unit::HeatCapacity, NumericType>{
+inline const ConversionTable<Unit::HeatCapacity, NumericType>
+    MapOfConversionsToStandard<Unit::HeatCapacity, NumericType>{
           {Unit::HeatCapacity::JoulePerKelvin,
            Conversions<Unit::HeatCapacity, Unit::HeatCapacity::JoulePerKelvin>::
                ToStandard<NumericType>},
